@@ -31,35 +31,37 @@ View == [S EXCEPT !.steps = <<>>, !.recs = <<>>,
 
 NoCrash == S.err = "" \/ SubSeq(S.err, 1, 10) = "unmodelled"
 
-Inv_C01 == P!F_C01_inv(S.cfg, S) = {}
-Inv_C03 == P!F_C03_inv(S.cfg, S) = {}
-Inv_C04 == P!F_C04_inv(S.cfg, S) = {}
-Inv_C12 == P!F_C12_inv(S.cfg, S) = {}
-Inv_C05 == P!F_C05_inv(S.cfg, S) = {}
-Inv_C06 == P!F_C06_inv(S.cfg, S) = {}
-Inv_C07 == P!F_C07_inv(S.cfg, S) = {}
-Inv_C09 == P!F_C09_inv(S.cfg, S) = {}
-Inv_C10 == P!F_C10_inv(S.cfg, S) = {}
-Inv_C11 == P!F_C11_inv(S.cfg, S) = {}
-Inv_C13 == P!F_C13_inv(S.cfg, S) = {}
+Inv_C01 == Ok(S) => P!F_C01_inv(S.cfg, S) = {}
+Inv_C03 == Ok(S) => P!F_C03_inv(S.cfg, S) = {}
+Inv_C04 == Ok(S) => P!F_C04_inv(S.cfg, S) = {}
+Inv_C12 == Ok(S) => P!F_C12_inv(S.cfg, S) = {}
+Inv_C05 == Ok(S) => P!F_C05_inv(S.cfg, S) = {}
+Inv_C06 == Ok(S) => P!F_C06_inv(S.cfg, S) = {}
+Inv_C07 == Ok(S) => P!F_C07_inv(S.cfg, S) = {}
+Inv_C09 == Ok(S) => P!F_C09_inv(S.cfg, S) = {}
+Inv_C10 == Ok(S) => P!F_C10_inv(S.cfg, S) = {}
+Inv_C11 == Ok(S) => P!F_C11_inv(S.cfg, S) = {}
+Inv_C13 == Ok(S) => P!F_C13_inv(S.cfg, S) = {}
 
-Step_C01 == [][P!F_C01_step(S.cfg, S, S') = {}]_S
-Step_C02 == [][P!F_C02_step(S.cfg, S, S') = {}]_S
-Step_C03 == [][P!F_C03_step(S.cfg, S, S') = {}]_S
-Step_C04 == [][P!F_C04_step(S.cfg, S, S') = {}]_S
-Step_C12 == [][P!F_C12_step(S.cfg, S, S') = {}]_S
-Step_C05 == [][P!F_C05_step(S.cfg, S, S') = {}]_S
-Step_C06 == [][P!F_C06_step(S.cfg, S, S') = {}]_S
-Step_C07 == [][P!F_C07_step(S.cfg, S, S') = {}]_S
-Step_C08 == [][P!F_C08_step(S.cfg, S, S') = {}]_S
-Step_C09 == [][P!F_C09_step(S.cfg, S, S', S.rt) = {}]_S
-Inv_C18 == P!F_C18_inv(S.cfg, S, S.dg) = {}
-Step_C18 == [][P!F_C18_step(S.cfg, S, S') = {}]_S
-Step_C20 == [][P!F_C20_step(S.cfg, S, S') = {}]_S
-Inv_C17 == P!F_C17_inv(S.cfg, S, S.gb) = {}
-Step_C17 == [][P!F_C17_step(S.cfg, S, S') = {}]_S
-Step_C10 == [][P!F_C10_step(S.cfg, S, S') = {}]_S
-Step_C11 == [][P!F_C11_step(S.cfg, S, S') = {}]_S
-Step_C13 == [][P!F_C13_step(S.cfg, S, S') = {}]_S
-Step_C14 == [][P!F_C14_step(S.cfg, S, S') = {}]_S
+Step_C01 == [][Ok(S') => P!F_C01_step(S.cfg, S, S') = {}]_S
+Step_C02 == [][Ok(S') => P!F_C02_step(S.cfg, S, S') = {}]_S
+Step_C03 == [][Ok(S') => P!F_C03_step(S.cfg, S, S') = {}]_S
+Step_C04 == [][Ok(S') => P!F_C04_step(S.cfg, S, S') = {}]_S
+Step_C12 == [][Ok(S') => P!F_C12_step(S.cfg, S, S') = {}]_S
+Step_C05 == [][Ok(S') => P!F_C05_step(S.cfg, S, S') = {}]_S
+Step_C06 == [][Ok(S') => P!F_C06_step(S.cfg, S, S') = {}]_S
+Step_C07 == [][Ok(S') => P!F_C07_step(S.cfg, S, S') = {}]_S
+Step_C08 == [][Ok(S') => P!F_C08_step(S.cfg, S, S') = {}]_S
+Step_C09 == [][Ok(S') => P!F_C09_step(S.cfg, S, S', S.rt) = {}]_S
+Inv_C18 == Ok(S) => P!F_C18_inv(S.cfg, S, S.dg) = {}
+Step_C18 == [][Ok(S') => P!F_C18_step(S.cfg, S, S') = {}]_S
+Step_C20 == [][Ok(S') => P!F_C20_step(S.cfg, S, S') = {}]_S
+Inv_C19 == Ok(S) => P!F_C19_inv(S.cfg, S) = {}
+Step_C19 == [][Ok(S') => P!F_C19_step(S.cfg, S, S') = {}]_S
+Inv_C17 == Ok(S) => P!F_C17_inv(S.cfg, S, S.gb) = {}
+Step_C17 == [][Ok(S') => P!F_C17_step(S.cfg, S, S') = {}]_S
+Step_C10 == [][Ok(S') => P!F_C10_step(S.cfg, S, S') = {}]_S
+Step_C11 == [][Ok(S') => P!F_C11_step(S.cfg, S, S') = {}]_S
+Step_C13 == [][Ok(S') => P!F_C13_step(S.cfg, S, S') = {}]_S
+Step_C14 == [][Ok(S') => P!F_C14_step(S.cfg, S, S') = {}]_S
 =============================================================================
